@@ -306,7 +306,7 @@ def check(src, rep):
     from sa.cross import include
     include(rep, src, "C20", {"R1", "R2"}, "R1", "the OBIS parser behind the P1 and COSEM decoders rejects malformed codes with ValueError only (no TypeError from absent regex groups)")
     include(rep, src, "C09", {"R2"}, "R1", "the Kamstrup normaliser is well-typed for lists without / with a non-text meter-type element (no AttributeError/TypeError)")
-    include(rep, src, "C12", {"R5"}, "R1", "decode_message hands only real payloads to the decoders (a message without payload is answered with None)")
+    include(rep, src, "C12", {"R1", "R2", "R5"}, "R1", "nothing escapes the rotation itself for any history (remembered index always valid); decode_message hands only real payloads to the decoders")
     rep.floor("analysed sites", n_sites, 40)
     # ---------------------------------------------------------------- R2 scanner termination
     _scanner(rep, M, src)
